@@ -34,10 +34,10 @@ func init() { register("mapscan", mapscanDriver) }
 
 const haqqMod = "github.com/haqq-network/haqq"
 
-var mapscanRoots = []string{"x", "app", "precompiles", "types", "utils"}
+var mapscanRoots = []string{"x", "app", "precompiles", "types", "utils", "ibc", "crypto", "ethereum", "encoding", "contracts"}
 
 // directories (path components) that are not part of the replicated state machine
-var mapscanExcludedDirs = []string{"/client/", "/cli/", "/rpc/", "/server/", "/indexer/", "/testutil/", "/simulation/", "/tests/"}
+var mapscanExcludedDirs = []string{"/client/", "/cli/", "/rpc/", "/server/", "/indexer/", "/testutil/", "/testing/", "/simulation/", "/tests/", "/mocks/"}
 
 type mapSite struct {
 	Kind    string `json:"kind"` // map-range | go-stmt | wall-clock
